@@ -156,6 +156,7 @@ structure Rep (c : Cfg α) (s : SV α) (els : List (Slot α)) : Prop where
   size_eq : els.length = s.size
   els_live : c.trivial = false → NoRaw els
   tail : ∃ tl, s.buf = els ++ tl ∧ TailOK c s.isLocal tl
+  cap_ge : c.S ≤ s.cap c          -- "the capacity of the vector is always >= S"
 
 /-- well formed: every element slot holds an object (possibly moved-from) -/
 def WF (c : Cfg α) (s : SV α) : Prop := ∃ els, Rep c s els
@@ -205,7 +206,7 @@ theorem rep_put {c : Cfg α} {s : SV α} {els : List (Slot α)} (hr : Rep c s el
   | none =>
     have hloc : s.isLocal = true := by simp [SV.isLocal, hh]
     have hbuf : s.buf = s.loc := by simp [SV.buf, hh]
-    refine ⟨?_, ?_, hn, hl, ⟨tl', ?_, ?_⟩⟩
+    refine ⟨?_, ?_, hn, hl, ⟨tl', ?_, ?_⟩, ?_⟩
     · simp only [SV.setBuf, hh]; rw [hlen, hbuf]; exact hr.loc_len
     · intro htv
       simp only [SV.setBuf, hh]; rw [hb]
@@ -213,13 +214,17 @@ theorem rep_put {c : Cfg α} {s : SV α} {els : List (Slot α)} (hr : Rep c s el
       exact NoRaw.append (hl htv) (by simpa using this)
     · simp only [SV.setBuf, hh, SV.buf]; exact hb
     · simpa [SV.setBuf, hh, SV.isLocal] using (hloc ▸ ht)
+    · simp [SV.cap, SV.setBuf, hh]
   | some hb0 =>
     have hloc : s.isLocal = false := by simp [SV.isLocal, hh]
-    refine ⟨?_, ?_, hn, hl, ⟨tl', ?_, ?_⟩⟩
+    refine ⟨?_, ?_, hn, hl, ⟨tl', ?_, ?_⟩, ?_⟩
     · simp only [SV.setBuf, hh]; exact hr.loc_len
     · simp only [SV.setBuf, hh]; exact hr.loc_live
     · simp only [SV.setBuf, hh, SV.buf]; exact hb
     · simpa [SV.setBuf, hh, SV.isLocal] using (hloc ▸ ht)
+    · have := hr.cap_ge
+      simp only [SV.cap, SV.setBuf, SV.buf, hh] at this hlen ⊢
+      omega
 
 theorem setBuf_size_same (s : SV α) (b : List (Slot α)) :
     ({ s.setBuf b with size := s.size } : SV α) = s.setBuf b := by
@@ -255,7 +260,8 @@ theorem Rep.freeHeap_ok {c : Cfg α} {s : SV α} {els : List (Slot α)} (h : Rep
   rw [hbuf] at hb; subst hb
   exact Vita.C20.freeHeap_ok c els tl s.size h.size_eq.symm h.els_live (fun htv => by simpa [hloc] using ht htv)
 
-theorem grow_spec {c : Cfg α} {s : SV α} {vs : List α} (h : Abs c s vs) (n : Nat) (hn : s.size ≤ n) :
+theorem grow_spec {c : Cfg α} {s : SV α} {vs : List α} (h : Abs c s vs) (n : Nat) (hn : s.size ≤ n)
+    (hS : c.S ≤ n) :
     ∃ s', grow c s n = .ok s' ∧ Abs c s' vs ∧ s'.heap.isSome = true ∧ s'.buf.length = n := by
   obtain ⟨tl, hb, ht⟩ := h.tail
   have hsz : vs.length = s.size := by simpa using h.size_eq
@@ -274,13 +280,14 @@ theorem grow_spec {c : Cfg α} {s : SV α} {vs : List α} (h : Abs c s vs) (n : 
     · simp only [grow, hmove, hcons, hh, bind, Except.bind, pure, Except.pure]
     · have hloc : s.isLocal = true := by simp [SV.isLocal, hh]
       have hbuf : s.buf = s.loc := by simp [SV.buf, hh]
-      refine ⟨?_, ?_, h.size_eq, h.els_live, ⟨List.replicate (n - vs.length) Slot.raw, by simp [SV.buf], ?_⟩⟩
+      refine ⟨?_, ?_, h.size_eq, h.els_live, ⟨List.replicate (n - vs.length) Slot.raw, by simp [SV.buf], ?_⟩, ?_⟩
       · have := h.loc_len; rw [← hbuf, hb] at this
         simpa [mv_length] using this
       · intro htv
         have := ht htv; rw [hloc] at this
         exact NoRaw.append (NoRaw.append NoRaw.nil (mv_noRaw _ _)) (by simpa using this)
       · intro _; simp [SV.isLocal]; exact allRaw_replicate _
+      · simp [SV.cap]; omega
     · simp [SV.buf]; omega
   | some b0 =>
     have hfree := h.freeHeap_ok b0 hh
@@ -295,7 +302,7 @@ theorem grow_spec {c : Cfg α} {s : SV α} {vs : List α} (h : Abs c s vs) (n : 
               size := s.size }, ?_, ?_, rfl, ?_⟩
     · simp only [grow, hmove, hcons, hh, hfree', bind, Except.bind, pure, Except.pure]
     · refine ⟨h.loc_len, h.loc_live, h.size_eq, h.els_live,
-        ⟨List.replicate (n - vs.length) Slot.raw, by simp [SV.buf], ?_⟩⟩
+        ⟨List.replicate (n - vs.length) Slot.raw, by simp [SV.buf], ?_⟩, by simp [SV.cap]; omega⟩
       intro _; simp [SV.isLocal]; exact allRaw_replicate _
     · simp [SV.buf]; omega
 
@@ -304,7 +311,7 @@ theorem reserve_spec {c : Cfg α} {s : SV α} {vs : List α} (h : Abs c s vs) (n
   unfold reserve
   by_cases hc : s.cap c < n
   · have hle : s.size ≤ n := Nat.le_of_lt (Nat.lt_of_le_of_lt h.size_le_cap hc)
-    obtain ⟨s', h1, h2, _, h4⟩ := grow_spec h n hle
+    obtain ⟨s', h1, h2, _, h4⟩ := grow_spec h n hle (by have := h.cap_ge; omega)
     refine ⟨s', by simp [hc, h1], h2, by omega, ?_⟩
     rw [← h.cap, h4]; omega
   · refine ⟨s, by simp [hc]; rfl, h, ?_, Nat.le_refl _⟩
@@ -372,6 +379,7 @@ theorem pushBack_spec {c : Cfg α} (hg : ∀ n, n < c.growth n) {s : SV α} {vs 
   have hread := readSrc_ok h x v hx
   by_cases hc : s.size = s.cap c
   · obtain ⟨s1, hg1, ha1, hh1, hl1⟩ := grow_spec h (c.growth s.size) (Nat.le_of_lt (hg _))
+      (by have := h.cap_ge; have := hg s.size; omega)
     have hsz1 : s1.size = s.size := by
       have a := ha1.size_eq; have b := h.size_eq; omega
     have hloc1 : s1.isLocal = false := by
@@ -402,11 +410,12 @@ theorem clear_spec {c : Cfg α} {s : SV α} (h : WF c s) : ∃ s', clear c s = .
     refine ⟨{ loc := s.loc, heap := none, size := 0 }, ?_, ?_⟩
     · simp only [clear, hh, hr.freeHeap_ok b hh, bind, Except.bind, pure, Except.pure]
     · exact ⟨hr.loc_len, hr.loc_live, rfl, fun _ => NoRaw.nil,
-        ⟨s.loc, by simp [SV.buf], fun htv => by simpa [SV.isLocal] using hr.loc_live htv⟩⟩
+        ⟨s.loc, by simp [SV.buf], fun htv => by simpa [SV.isLocal] using hr.loc_live htv⟩, by simp [SV.cap]⟩
   | none =>
     refine ⟨{ s with size := 0 }, by simp [clear, hh]; rfl, ?_⟩
     exact ⟨hr.loc_len, hr.loc_live, rfl, fun _ => NoRaw.nil,
-      ⟨s.loc, by simp [SV.buf, hh], fun htv => by simpa [SV.isLocal, hh] using hr.loc_live htv⟩⟩
+      ⟨s.loc, by simp [SV.buf, hh], fun htv => by simpa [SV.isLocal, hh] using hr.loc_live htv⟩,
+      by simp [SV.cap, hh]⟩
 
 theorem append_spec {c : Cfg α} {s : SV α} {vs : List α} (h : Abs c s vs) (xs : List α) :
     ∃ s', append c s xs = .ok s' ∧ Abs c s' (vs ++ xs) := by
@@ -617,7 +626,7 @@ theorem resize_spec {c : Cfg α} {s : SV α} {vs : List α} (h : Abs c s vs) (n 
         · unfold resize
           simp only [hc, if_true, hh, hgrow, if_false, bind, Except.bind, pure, Except.pure]
         · refine ⟨h.loc_len, h.loc_live, by simp [hA], fun _ => noRaw_map_alive _,
-            ⟨B.map Slot.alive ++ tl, ?_, ?_⟩⟩
+            ⟨B.map Slot.alive ++ tl, ?_, ?_⟩, by simp [SV.cap, hh]⟩
           · simp only [SV.buf, hh]; rw [← hbuf, hb, List.append_assoc]
           · intro htv; simp only [SV.isLocal, hh]; simp
             have := ht htv; rw [hloc] at this
@@ -631,7 +640,8 @@ theorem resize_spec {c : Cfg α} {s : SV α} {vs : List α} (h : Abs c s vs) (n 
           · unfold resize
             simp only [hc, if_true, hh, hgrow, htv, if_false, bind, Except.bind, pure, Except.pure]
           · refine ⟨h.loc_len, h.loc_live, by simp [hA], fun _ => noRaw_map_alive _,
-              ⟨B.map Slot.alive ++ tl, ?_, fun hf => by rw [htv] at hf; cases hf⟩⟩
+              ⟨B.map Slot.alive ++ tl, ?_, fun hf => by rw [htv] at hf; cases hf⟩,
+              by have := h.cap_ge; simpa [SV.cap, hh] using this⟩
             simp only [SV.buf]; rw [← hbuf, hb, List.append_assoc]
         | false =>
           by_cases hlt : n < s.size
@@ -643,10 +653,14 @@ theorem resize_spec {c : Cfg α} {s : SV α} {vs : List α} (h : Abs c s vs) (n 
               simp only [hc, if_true, hh, hgrow, htv, hlt, m, if_false, bind, Except.bind, pure, Except.pure,
                 Bool.false_eq_true]
             · refine ⟨h.loc_len, h.loc_live, by simp [hA], fun _ => noRaw_map_alive _,
-                ⟨List.replicate (s.size - n) Slot.raw ++ tl, by simp [SV.buf], ?_⟩⟩
-              intro _; simp only [SV.isLocal]; simp
-              have := ht htv; rw [hloc] at this
-              exact AllRaw.append (allRaw_replicate _) (by simpa using this)
+                ⟨List.replicate (s.size - n) Slot.raw ++ tl, by simp [SV.buf], ?_⟩, ?_⟩
+              · intro _; simp only [SV.isLocal]; simp
+                have := ht htv; rw [hloc] at this
+                exact AllRaw.append (allRaw_replicate _) (by simpa using this)
+              · have hcg := h.cap_ge
+                have hl := congrArg List.length hb
+                simp [SV.cap, hh, hbuf] at hcg hl hsz ⊢
+                omega
           · have hB : B = [] := by
               have : B.length = 0 := by simp at hsz; omega
               exact List.length_eq_zero_iff.1 this
@@ -661,12 +675,16 @@ theorem resize_spec {c : Cfg α} {s : SV α} {vs : List α} (h : Abs c s vs) (n 
               simp only [hc, if_true, hh, hgrow, htv, hlt, hz, m, List.replicate_zero, if_false, bind, Except.bind,
                 pure, Except.pure, Bool.false_eq_true]
             · refine ⟨h.loc_len, h.loc_live, by simp [hA], fun _ => noRaw_map_alive _,
-                ⟨tl, by simp [SV.buf], ?_⟩⟩
-              intro hf; simp only [SV.isLocal]; simp
-              have := ht hf; rw [hloc] at this; simpa using this
+                ⟨tl, by simp [SV.buf], ?_⟩, ?_⟩
+              · intro hf; simp only [SV.isLocal]; simp
+                have := ht hf; rw [hloc] at this; simpa using this
+              · have hcg := h.cap_ge
+                have hl := congrArg List.length hb
+                simp [SV.cap, hh, hbuf] at hcg hl hsz ⊢
+                omega
   · -- beyond the capacity: grow, then construct the new elements
     have hle : s.size ≤ n := by have := h.size_le_cap; omega
-    obtain ⟨s1, hg1, ha1, hh1, hl1⟩ := grow_spec h n hle
+    obtain ⟨s1, hg1, ha1, hh1, hl1⟩ := grow_spec h n hle (by have := h.cap_ge; omega)
     have hsz1 : s1.size = s.size := by
       have a := ha1.size_eq; have b := h.size_eq; omega
     have hloc1 : s1.isLocal = false := by
@@ -707,7 +725,7 @@ theorem build_spec (c : Cfg α) (vals : List α) : ∃ s', build c vals = .ok s'
       simp only [hn, if_true, m, bind, Except.bind, pure, Except.pure]
       rfl
     case h2 =>
-      refine ⟨by simp; omega, ?_, by simp, fun _ => noRaw_map_alive _, ⟨_, rfl, ?_⟩⟩
+      refine ⟨by simp; omega, ?_, by simp, fun _ => noRaw_map_alive _, ⟨_, rfl, ?_⟩, by simp [SV.cap]⟩
       · intro ht
         exact NoRaw.append (NoRaw.append NoRaw.nil (noRaw_map_alive _)) (hlive ht)
       · intro ht; simpa [SV.isLocal] using hlive ht
@@ -720,7 +738,7 @@ theorem build_spec (c : Cfg α) (vals : List α) : ∃ s', build c vals = .ok s'
       rfl
     case h4 =>
       exact ⟨freshLoc_length c, freshLoc_noRaw c, by simp, fun _ => noRaw_map_alive _,
-        ⟨[], by simp [SV.buf], tailOK_nil _ _⟩⟩
+        ⟨[], by simp [SV.buf], tailOK_nil _ _⟩, by simp [SV.cap]; omega⟩
 
 theorem contents_ok {c : Cfg α} {s : SV α} {vs : List α} (h : Abs c s vs) : contents s = .ok vs := by
   obtain ⟨tl, hb, _⟩ := h.tail
@@ -774,7 +792,7 @@ theorem ctorMove_spec {c : Cfg α} {src : SV α} {vs : List α} (h : Abs c src v
       simp only [hn, if_true, m1, m2, bind, Except.bind, pure, Except.pure]
       rfl
     case h2 =>
-      refine ⟨by simp; omega, ?_, by simp [hsz], fun _ => noRaw_map_alive _, ⟨_, rfl, ?_⟩⟩
+      refine ⟨by simp; omega, ?_, by simp [hsz], fun _ => noRaw_map_alive _, ⟨_, rfl, ?_⟩, by simp [SV.cap]⟩
       · intro ht
         exact NoRaw.append (NoRaw.append NoRaw.nil (noRaw_map_alive _)) (hlive ht)
       · intro ht; simpa [SV.isLocal] using hlive ht
@@ -785,11 +803,12 @@ theorem ctorMove_spec {c : Cfg α} {src : SV α} {vs : List α} (h : Abs c src v
             { loc := src.loc, heap := none, size := 0 }, ?_, ?_, ?_⟩
     · unfold ctorMove
       simp only [hn, if_false, hh, bind, Except.bind, pure, Except.pure]
-    · refine ⟨freshLoc_length c, freshLoc_noRaw c, h.size_eq, h.els_live, ⟨tl, ?_, ?_⟩⟩
+    · refine ⟨freshLoc_length c, freshLoc_noRaw c, h.size_eq, h.els_live, ⟨tl, ?_, ?_⟩,
+        by have := h.cap_ge; simpa [SV.cap, hh] using this⟩
       · simp only [SV.buf]; rw [← hbuf, hb]
       · rw [hloc] at ht; simpa [SV.isLocal] using ht
     · exact ⟨[], h.loc_len, h.loc_live, rfl, fun _ => NoRaw.nil,
-        ⟨src.loc, by simp [SV.buf], fun htv => by simpa [SV.isLocal] using h.loc_live htv⟩⟩
+        ⟨src.loc, by simp [SV.buf], fun htv => by simpa [SV.isLocal] using h.loc_live htv⟩, by simp [SV.cap]⟩
 
 theorem dtor_spec {c : Cfg α} {s : SV α} (h : WF c s) : dtor c s = .ok () := by
   obtain ⟨els, hr⟩ := h
@@ -847,7 +866,8 @@ theorem assignCopy_spec {c : Cfg α} {dst src : SV α} {vs : List α} (hd : WF c
     have m := constructRange_ok (buf := List.replicate src.size (Slot.raw : Slot α)) (pos := 0) c.trivial []
       (List.replicate src.size Slot.raw) [] vs (by simp) rfl (by simp [hsz]) (fun _ => allRaw_replicate _)
     have hres : Abs c { loc := dst.loc, heap := some ([] ++ vs.map Slot.alive ++ []), size := src.size } vs :=
-      ⟨hr.loc_len, hr.loc_live, by simp [hsz], fun _ => noRaw_map_alive _, ⟨[], by simp [SV.buf], tailOK_nil _ _⟩⟩
+      ⟨hr.loc_len, hr.loc_live, by simp [hsz], fun _ => noRaw_map_alive _, ⟨[], by simp [SV.buf], tailOK_nil _ _⟩,
+        by have := hr.cap_ge; simp [SV.cap, hsz]; omega⟩
     refine ⟨_, ?_, hres⟩
     cases hh : dst.heap with
     | some b0 =>
@@ -868,7 +888,8 @@ theorem assignCopy_spec {c : Cfg α} {dst src : SV α} {vs : List α} (hd : WF c
       refine ⟨{ dst with loc := [] ++ vs.map Slot.alive ++ L2, size := src.size }, ?_, ?_⟩
       · unfold assignCopy
         simp only [hread, hc, if_false, hh, m, bind, Except.bind, pure, Except.pure]
-      · refine ⟨?_, ?_, by simp [hsz], fun _ => noRaw_map_alive _, ⟨L2, by simp [SV.buf, hh], ?_⟩⟩
+      · refine ⟨?_, ?_, by simp [hsz], fun _ => noRaw_map_alive _, ⟨L2, by simp [SV.buf, hh], ?_⟩,
+          by simp [SV.cap, hh]⟩
         · have := hr.loc_len; rw [hls] at this; simp at this ⊢; omega
         · intro htv; exact NoRaw.append (NoRaw.append NoRaw.nil (noRaw_map_alive _)) (hlive htv).right
         · intro htv; simp only [SV.isLocal, hh]; simpa using (hlive htv).right
@@ -884,7 +905,11 @@ theorem assignCopy_spec {c : Cfg α} {dst src : SV α} {vs : List α} (hd : WF c
         · unfold assignCopy
           simp only [hread, hc, if_false, hh, htv, if_true, m, bind, Except.bind, pure, Except.pure]
         · exact ⟨hr.loc_len, hr.loc_live, by simp [hsz], fun _ => noRaw_map_alive _,
-            ⟨L2, by simp [SV.buf], fun hf => by rw [htv] at hf; cases hf⟩⟩
+            ⟨L2, by simp [SV.buf], fun hf => by rw [htv] at hf; cases hf⟩,
+            by have hcg := hr.cap_ge
+               have hl := congrArg List.length hls
+               simp [SV.cap, hh] at hcg hl ⊢
+               omega⟩
       | false =>
         have htl : AllRaw tl := by have := ht htv; rw [hloc] at this; simpa using this
         rw [hbuf] at hb
@@ -903,9 +928,14 @@ theorem assignCopy_spec {c : Cfg α} {dst src : SV α} {vs : List α} (hd : WF c
             simp only [hread, hc, if_false, hh, htv, hlt, if_true, m1, m2, bind, Except.bind, pure, Except.pure,
               Bool.false_eq_true]
           · refine ⟨hr.loc_len, hr.loc_live, by simp [hsz], fun _ => noRaw_map_alive _,
-              ⟨List.replicate (dst.size - src.size) Slot.raw ++ tl, by simp [SV.buf], ?_⟩⟩
-            intro _; simp only [SV.isLocal]; simp
-            exact AllRaw.append (allRaw_replicate _) htl
+              ⟨List.replicate (dst.size - src.size) Slot.raw ++ tl, by simp [SV.buf], ?_⟩, ?_⟩
+            · intro _; simp only [SV.isLocal]; simp
+              exact AllRaw.append (allRaw_replicate _) htl
+            · have hcg := hr.cap_ge
+              have hl := congrArg List.length hb
+              have hse := hr.size_eq
+              simp [SV.cap, hh] at hcg hl hse ⊢
+              omega
         · -- assign onto the live prefix, construct the rest on raw memory
           have hels : els.length = dst.size := hr.size_eq
           have htlen : src.size - dst.size ≤ tl.length := by
@@ -921,10 +951,14 @@ theorem assignCopy_spec {c : Cfg α} {dst src : SV α} {vs : List α} (hd : WF c
           · unfold assignCopy
             simp only [hread, hc, if_false, hh, htv, hlt, m1, m2, bind, Except.bind, pure, Except.pure,
               Bool.false_eq_true]
-          · refine ⟨hr.loc_len, hr.loc_live, by simp [hsz], fun _ => noRaw_map_alive _, ⟨T2, ?_, ?_⟩⟩
+          · refine ⟨hr.loc_len, hr.loc_live, by simp [hsz], fun _ => noRaw_map_alive _, ⟨T2, ?_, ?_⟩, ?_⟩
             · simp only [SV.buf, List.nil_append]
               rw [← List.map_append, List.take_append_drop]
             · intro _; simp only [SV.isLocal]; simp; exact htl.right
+            · have hcg := hr.cap_ge
+              have hl := congrArg List.length hb
+              simp [SV.cap, hh] at hcg hl ⊢
+              omega
 
 theorem assignMove_spec {c : Cfg α} {dst src : SV α} {vs : List α} (hd : WF c dst) (h : Abs c src vs) :
     ∃ d' s', assignMove c dst src = .ok (d', s') ∧ Abs c d' vs ∧ WF c s' := by
@@ -952,7 +986,7 @@ theorem assignMove_spec {c : Cfg α} {dst src : SV α} {vs : List α} (hd : WF c
         simp only [hr.freeHeap_ok b hh, hn, if_true, m1, m2, bind, Except.bind, pure, Except.pure]
       | none =>
         simp only [hn, if_true, m1, m2, bind, Except.bind, pure, Except.pure]
-    · refine ⟨?_, ?_, by simp [hsz], fun _ => noRaw_map_alive _, ⟨L2, by simp [SV.buf], ?_⟩⟩
+    · refine ⟨?_, ?_, by simp [hsz], fun _ => noRaw_map_alive _, ⟨L2, by simp [SV.buf], ?_⟩, by simp [SV.cap]⟩
       · have := hr.loc_len; rw [hls] at this; simp at this ⊢; omega
       · intro htv; exact NoRaw.append (NoRaw.append NoRaw.nil (noRaw_map_alive _)) (hlive htv).right
       · intro htv; simp only [SV.isLocal]; simpa using (hlive htv).right
@@ -967,20 +1001,149 @@ theorem assignMove_spec {c : Cfg α} {dst src : SV α} {vs : List α} (hd : WF c
         simp only [hr.freeHeap_ok b hd, hn, if_false, hh, bind, Except.bind, pure, Except.pure]
       | none =>
         simp only [hn, if_false, hh, bind, Except.bind, pure, Except.pure]
-    · refine ⟨hr.loc_len, hr.loc_live, h.size_eq, h.els_live, ⟨tl, ?_, ?_⟩⟩
+    · refine ⟨hr.loc_len, hr.loc_live, h.size_eq, h.els_live, ⟨tl, ?_, ?_⟩,
+        by have := h.cap_ge; simpa [SV.cap, hh] using this⟩
       · simp only [SV.buf]; rw [← hbuf, hb]
       · rw [hloc] at ht; simpa [SV.isLocal] using ht
     · exact ⟨[], h.loc_len, h.loc_live, rfl, fun _ => NoRaw.nil,
-        ⟨src.loc, by simp [SV.buf], fun htv => by simpa [SV.isLocal] using h.loc_live htv⟩⟩
+        ⟨src.loc, by simp [SV.buf], fun htv => by simpa [SV.isLocal] using h.loc_live htv⟩, by simp [SV.cap]⟩
 
-/-! ### comparison -/
+/-! ### comparison (the two operands may have different inline capacities) -/
 
-theorem svEq_spec [DecidableEq α] {c : Cfg α} {a b : SV α} {la lb : List α} (ha : Abs c a la) (hb : Abs c b lb) :
-    svEq a b = .ok (decide (la = lb)) := by
-  simp only [svEq, contents_ok ha, contents_ok hb, bind, Except.bind, pure, Except.pure]
+theorem svEq_spec {c c' : Cfg α} (eq : α → α → Bool) {a b : SV α} {la lb : List α} (ha : Abs c a la)
+    (hb : Abs c' b lb) : svEq eq a b = .ok (vecEq eq la lb) := by
+  simp only [svEq, vecEq, contents_ok ha, contents_ok hb, bind, Except.bind, pure, Except.pure]
 
-theorem svLt_spec {c : Cfg α} (lt : α → α → Bool) {a b : SV α} {la lb : List α} (ha : Abs c a la)
-    (hb : Abs c b lb) : svLt lt a b = .ok (lexLt lt la lb) := by
+theorem svLt_spec {c c' : Cfg α} (lt : α → α → Bool) {a b : SV α} {la lb : List α} (ha : Abs c a la)
+    (hb : Abs c' b lb) : svLt lt a b = .ok (lexLt lt la lb) := by
   simp only [svLt, contents_ok ha, contents_ok hb, bind, Except.bind, pure, Except.pure]
+
+/-- each of the six operators of small_vector.tcc returns what `std::vector`'s operator returns -/
+theorem svCmp_spec {c c' : Cfg α} (eq lt : α → α → Bool) (k : Cmp) {a b : SV α} {la lb : List α}
+    (ha : Abs c a la) (hb : Abs c' b lb) : svCmp eq lt k a b = .ok (vecCmp eq lt k la lb) := by
+  cases k <;>
+    simp only [svCmp, vecCmp, svEq_spec eq ha hb, svLt_spec lt ha hb, svLt_spec lt hb ha, bind, Except.bind,
+      pure, Except.pure]
+
+/-! ### element access through front/back/data, iterators -/
+
+theorem frontAt_spec {c : Cfg α} {s : SV α} {vs : List α} (h : Abs c s vs) (v : α) (hv : vs[0]? = some v) :
+    frontAt s = .ok v := by
+  have hi := (split_at hv).2
+  have hsz : vs.length = s.size := by simpa using h.size_eq
+  have : ¬ s.size = 0 := by omega
+  simp only [frontAt, this, if_false, getAt_spec h 0 v hv]
+
+theorem backAt_spec {c : Cfg α} {s : SV α} {vs : List α} (h : Abs c s vs) (v : α)
+    (hv : vs[vs.length - 1]? = some v) : backAt s = .ok v := by
+  have hi := (split_at hv).2
+  have hsz : vs.length = s.size := by simpa using h.size_eq
+  have : ¬ s.size = 0 := by omega
+  rw [hsz] at hv
+  simp only [backAt, this, if_false, getAt_spec h _ v hv]
+
+theorem setFront_spec {c : Cfg α} {s : SV α} {vs : List α} (h : Abs c s vs) (x : α) (hi : 0 < vs.length) :
+    ∃ s', setFront c s x = .ok s' ∧ Abs c s' (vs.set 0 x) := by
+  have hsz : vs.length = s.size := by simpa using h.size_eq
+  have : ¬ s.size = 0 := by omega
+  obtain ⟨s', h1, h2⟩ := setAt_spec h 0 x hi
+  exact ⟨s', by simp only [setFront, this, if_false, h1], h2⟩
+
+theorem setBack_spec {c : Cfg α} {s : SV α} {vs : List α} (h : Abs c s vs) (x : α) (hi : 0 < vs.length) :
+    ∃ s', setBack c s x = .ok s' ∧ Abs c s' (vs.set (vs.length - 1) x) := by
+  have hsz : vs.length = s.size := by simpa using h.size_eq
+  have : ¬ s.size = 0 := by omega
+  obtain ⟨s', h1, h2⟩ := setAt_spec h (vs.length - 1) x (by omega)
+  rw [hsz] at h1
+  exact ⟨s', by simp only [setBack, this, if_false, h1], h2⟩
+
+theorem dataAt_spec {c : Cfg α} {s : SV α} {vs : List α} (h : Abs c s vs) (i : Nat) (v : α)
+    (hv : vs[i]? = some v) : dataAt s i = .ok v := getAt_spec h i v hv
+
+theorem setData_spec {c : Cfg α} {s : SV α} {vs : List α} (h : Abs c s vs) (i : Nat) (x : α)
+    (hi : i < vs.length) : ∃ s', setData c s i x = .ok s' ∧ Abs c s' (vs.set i x) := setAt_spec h i x hi
+
+theorem derefAt_ok (P : List (Slot α)) (v : α) (Q : List (Slot α)) :
+    derefAt (P ++ [Slot.alive v] ++ Q) P.length = .ok v := by
+  have := readRange_ok (buf := P ++ [Slot.alive v] ++ Q) (pos := P.length) (n := 1) P [v] Q rfl rfl rfl
+  simp only [derefAt, this]
+
+/-- a forward traversal from an iterator to `end()` yields the elements in between -/
+theorem iterGo_ok (P : List (Slot α)) (vs : List α) (Q : List (Slot α)) (f : Nat) (hf : vs.length ≤ f) :
+    iterGo (P ++ vs.map Slot.alive ++ Q) (P.length + vs.length) f P.length = .ok vs := by
+  induction vs generalizing P f with
+  | nil => cases f <;> simp [iterGo]
+  | cons v vs ih =>
+    cases f with
+    | zero => simp at hf
+    | succ f =>
+      have hne : ¬ P.length = P.length + (v :: vs).length := by simp
+      have hb : P ++ (v :: vs).map Slot.alive ++ Q = (P ++ [Slot.alive v]) ++ vs.map Slot.alive ++ Q := by
+        simp [List.append_assoc]
+      have hd : derefAt (P ++ (v :: vs).map Slot.alive ++ Q) P.length = .ok v := by
+        have := derefAt_ok P v (vs.map Slot.alive ++ Q)
+        simpa [List.append_assoc] using this
+      have hrec := ih (P ++ [Slot.alive v]) f (by simp at hf; omega)
+      have hlen : (P ++ [Slot.alive v]).length = P.length + 1 := by simp
+      rw [hlen] at hrec
+      have he : P.length + (v :: vs).length = P.length + 1 + vs.length := by simp; omega
+      rw [iterGo, if_neg hne, hd, hb, he, hrec]
+
+theorem iterFwd_spec {c : Cfg α} {s : SV α} {vs : List α} (h : Abs c s vs) : iterFwd s = .ok vs := by
+  obtain ⟨tl, hb, _⟩ := h.tail
+  have hsz : vs.length = s.size := by simpa using h.size_eq
+  have := iterGo_ok [] vs tl s.size (by omega)
+  simp only [List.nil_append, List.length_nil, Nat.zero_add] at this
+  rw [iterFwd, hb, ← hsz]
+  rw [hsz]; exact hsz ▸ this
+
+/-- a reverse traversal from `reverse_iterator(begin() + k)` to `rend()` yields the first `k`
+    elements backwards -/
+theorem riterGo_ok (vs : List α) (Q : List (Slot α)) (k f : Nat) (hk : k ≤ vs.length) (hf : k ≤ f) :
+    riterGo (vs.map Slot.alive ++ Q) f k = .ok (vs.take k).reverse := by
+  induction k generalizing f with
+  | zero => cases f <;> simp [riterGo]
+  | succ k ih =>
+    cases f with
+    | zero => omega
+    | succ f =>
+      have hlt : k < vs.length := by omega
+      have hv : vs[k]? = some vs[k] := List.getElem?_eq_getElem hlt
+      obtain ⟨hsplit, _⟩ := split_at hv
+      have hd : derefAt (vs.map Slot.alive ++ Q) k = .ok vs[k] := by
+        have := derefAt_ok ((vs.take k).map Slot.alive) vs[k] ((vs.drop (k + 1)).map Slot.alive ++ Q)
+        have hl : ((vs.take k).map Slot.alive).length = k := by simp; omega
+        rw [hl] at this
+        rw [← this]; congr 1
+        calc vs.map Slot.alive ++ Q = (vs.take k ++ [vs[k]] ++ vs.drop (k + 1)).map Slot.alive ++ Q := by rw [← hsplit]
+          _ = _ := by simp only [List.map_append, List.map_cons, List.map_nil, List.append_assoc]
+      have hrec := ih f (by omega) (by omega)
+      have ht : (vs.take (k + 1)).reverse = vs[k] :: (vs.take k).reverse := by
+        rw [List.take_add_one, hv]; simp
+      rw [riterGo, if_neg (by omega), Nat.add_sub_cancel, hd, hrec, ht]
+
+theorem iterRev_spec {c : Cfg α} {s : SV α} {vs : List α} (h : Abs c s vs) : iterRev s = .ok vs.reverse := by
+  obtain ⟨tl, hb, _⟩ := h.tail
+  have hsz : vs.length = s.size := by simpa using h.size_eq
+  have := riterGo_ok vs tl s.size s.size (by omega) (Nat.le_refl _)
+  rw [iterRev, hb, this, ← hsz, List.take_length]
+
+/-- the iterator `insert` returns points to the first inserted element -/
+theorem capOk_spec {c : Cfg α} {s : SV α} {vs : List α} (h : Abs c s vs) : capOk c s = true := by
+  simp [capOk, h.cap_ge, h.size_le_cap]
+
+theorem insertR_spec {c : Cfg α} {s : SV α} {vs : List α} (h : Abs c s vs) (pos : Nat) (xs : List α)
+    (hp : pos ≤ vs.length) :
+    ∃ s', insertR c s pos xs = .ok (s', pos) ∧ Abs c s' (vs.take pos ++ xs ++ vs.drop pos) := by
+  obtain ⟨s', h1, h2⟩ := insert_spec h pos xs hp
+  have hsz : vs.length = s.size := by simpa using h.size_eq
+  have hsz' : (vs.take pos ++ xs ++ vs.drop pos).length = s'.size := by simpa using h2.size_eq
+  refine ⟨s', ?_, h2⟩
+  simp only [insertR, h1, bind, Except.bind, pure, Except.pure]
+  by_cases he : pos = s.size
+  · simp only [he, if_true]
+    simp at hsz'
+    congr 2; omega
+  · simp only [he, if_false]
 
 end Vita.C20
